@@ -641,10 +641,16 @@ type c20Action struct {
 }
 
 func (w *c20World) cliAccepts() bool {
-	// the pre-check of the `dae reload` command (cmd/reload.go, inside the cobra closure):
-	// err == nil && code != ReloadDone && code != ReloadError  =>  refuse to signal
+	// the pre-check of the `dae reload` command, as extracted from the cobra closure in
+	// cmd/reload.go (c20ExtractCLI): it goes on to signal iff the file is unreadable or its code is
+	// one of the extracted ones
 	code, _, err := readSignalProgressFile(w.progPath)
-	return err == nil && (code == consts.ReloadDone || code == consts.ReloadError)
+	if err != nil {
+		return false // the harness never removes the file; treat as "not our case"
+	}
+	name := map[byte]string{consts.ReloadSend: "ReloadSend", consts.ReloadProcessing: "ReloadProcessing",
+		consts.ReloadDone: "ReloadDone", consts.ReloadError: "ReloadError", consts.ReloadBusy: "ReloadBusy"}[code]
+	return w.regions.cliAccept[name]
 }
 
 func c20PathOp(p *c20Path) string { return strings.Join(p.toks, " ") + " !" + p.term }
@@ -1157,7 +1163,8 @@ func TestVerifC20(t *testing.T) {
 		name string
 		p    []c20Path
 	}{{"worker", regions.worker}, {"handler", regions.handler}, {"signals", regions.signals},
-		{"drain", regions.drain}, {"retire", regions.retire}, {"startret", regions.startret}, {"retgo", regions.retgo}} {
+		{"drain", regions.drain}, {"retire", regions.retire}, {"startret", regions.startret}, {"retgo", regions.retgo},
+		{"facts", regions.facts}} {
 		for i := range reg.p {
 			ps.Emit("path "+reg.name+" "+c20PathOp(&reg.p[i]), "known")
 			st.Inc("extracted_paths:" + reg.name)
